@@ -347,6 +347,13 @@ func (e *Env) Generate(v Variant) (*GenResult, error) {
 	}
 	// struct package
 	req.Parameter = proto.String("")
+	structFiles := map[string]bool{v.D.Pkg + ".pb.go": true}
+	for _, dep := range v.D.Deps {
+		if dep.Share { // the other files of the struct package
+			req.FileToGenerate = append([]string{dep.Pkg + ".proto"}, req.FileToGenerate...)
+			structFiles[dep.Pkg+".pb.go"] = true
+		}
+	}
 	reqBytes, _ = proto.Marshal(req)
 	gso, gse, gex, err := run(vdir, e.GoEnv, reqBytes, e.GogoBin)
 	if err != nil || gex != 0 {
@@ -364,8 +371,8 @@ func (e *Env) Generate(v Variant) (*GenResult, error) {
 		return nil, err
 	}
 	for _, f := range gresp.File {
-		if strings.HasSuffix(f.GetName(), "/"+v.D.Pkg+".pb.go") || f.GetName() == v.D.Pkg+".pb.go" {
-			if err := ioutil.WriteFile(filepath.Join(sdir, v.D.Pkg+".pb.go"), []byte(f.GetContent()), 0o644); err != nil {
+		if base := filepath.Base(f.GetName()); structFiles[base] {
+			if err := ioutil.WriteFile(filepath.Join(sdir, base), []byte(f.GetContent()), 0o644); err != nil {
 				return nil, err
 			}
 		}
